@@ -37,6 +37,8 @@ WEAK_PIPELINE = {
     "HandshakeAcceptsAppAhead": {"JournalWellFormed"},
     "EmptyStoreAcceptsAppAhead": {"JournalWellFormed"},
     "NoInitialHeightBase": {"NoStuck"},
+    "ReplayDropsParamUpdates": {"StateIsChainState"},
+    "CrashCopyDropsValUpdates": {"StateIsChainState"},
 }
 IH = 5          # genesis InitialHeight of the "chain that starts above height 1" runs
 IH_BLOCKS = 2
@@ -126,12 +128,13 @@ def run_specs_from_tlc(scheds, prefix="tlc", ih=1):
 
 
 # ------------------------------------------------------------------------------ harness plumbing
-def pipeline_input(runs, retain=None, hash_mode="commits", initial_height=1, heights=HEIGHTS):
+def pipeline_input(runs, retain=None, hash_mode="commits", initial_height=1, heights=HEIGHTS, discard_abci=False):
     return {"heights": heights, "plan": PLAN, "param_at": PARAM_AT, "retain": RETAIN if retain is None else retain,
-            "hash_mode": hash_mode, "initial_height": initial_height, "runs": runs}
+            "hash_mode": hash_mode, "initial_height": initial_height, "discard_abci": discard_abci, "runs": runs}
 
 
-def run_pipeline(ctx, binp, runs, tag, procs, retain=None, hash_mode="commits", initial_height=1, heights=HEIGHTS):
+def run_pipeline(ctx, binp, runs, tag, procs, retain=None, hash_mode="commits", initial_height=1, heights=HEIGHTS,
+                 discard_abci=False):
     """Execute run specs on the real node, sharded over `procs` processes. Returns rows in run order."""
     if not runs:
         return []
@@ -143,7 +146,7 @@ def run_pipeline(ctx, binp, runs, tag, procs, retain=None, hash_mode="commits", 
         inp = os.path.join(d, "in-%d.json" % k)
         outp = os.path.join(d, "out-%d.ndjson" % k)
         with open(inp, "w") as f:
-            json.dump(pipeline_input(shards[k], retain, hash_mode, initial_height, heights), f)
+            json.dump(pipeline_input(shards[k], retain, hash_mode, initial_height, heights, discard_abci), f)
         rc, txt = ctx.run_test(binp, "^TestVerifC05Pipeline$", {"VERIF_IN": inp, "VERIF_OUT": outp},
                                timeout=1500, label="pipeline-%s-%d" % (tag, k))
         if rc != 0:
@@ -285,6 +288,11 @@ def run(ctx):
                                        {"MaxHeight": IH_BLOCKS, "MaxCrashes": 1 if quick else 2}, "schedules_initial_height")
     ih_tlc_runs, _ = run_specs_from_tlc(scheds_ih, "tlcih", IH)
     exhaustive_runs.append(r_ih)
+    # the state store run with DiscardABCIResponses: only the crash-recovery copy of the responses is kept
+    c_d = core.cfg_variant(ctx, "C05_discard.cfg", "C05_discard_run.cfg",
+                           {"MaxHeight": 2 if quick else HEIGHTS, "MaxCrashes": 1 if quick else 2})
+    exhaustive_runs.append(ctx.tlc("C05_pipeline", c_d, must_pass=True, timeout=1200, workers=tlcw, heap="6g",
+                                   label="pipeline_discard_abci_responses"))
     n_tlc_scheds = len(tlc_runs)
     if quick:
         # single-crash schedules duplicate the index-exhaustive single crashes below: replay a seeded half
@@ -374,6 +382,21 @@ def run(ctx):
         ih_runs = list({r["id"]: r for r in ih_runs}.values())
     rows_ih = run_pipeline(ctx, binp, ih_runs + ih_attacks + ih_tlc_runs, "ih", procs, **ihkw)
 
+    # DiscardABCIResponses: the window between the app's Commit and the state save of every block (where the
+    # Handshake rebuilds the state from the crash-recovery copy of the ABCI responses) in quick, every
+    # operation of the run in thorough
+    dkw = dict(retain={}, discard_abci=True)
+    if quick:
+        d_runs = [{"id": "disc:%s@%d" % (k.replace("/", "."), h), "crashes": [_op("%s/%d/%s" % (k, h + (2 if k == "db/ss:vals" else 1 if k == "db/ss:params" else 0), "0"))]}
+                  for h in range(1, HEIGHTS + 1)
+                  for k in ("mp/Update", "mp/Unlock", "evp/Update", "db/ss:vals", "db/ss:params", "db/ss:state")]
+    else:
+        free_d = run_pipeline(ctx, binp, [{"id": "free-disc", "crashes": []}], "freedisc", 1, **dkw)
+        d_runs = [{"id": "disc:%d" % i, "crashes": [{"idx": i, "label": "", "occ": 0}]}
+                  for i in range(1, ops_of_incarnation(free_d, 0) + 1)]
+    rows_d = run_pipeline(ctx, binp, d_runs, "disc", procs, **dkw)
+    d_unrealised = [rr[0]["run"] for rr in split_by_run(rows_d) if not any(r["ev"] == "Crash" for r in rr)]
+
     # TLC schedules that the real node did not realise (a crash label that never came up)
     want_by_id = {r["id"]: len(r["crashes"]) for r in tlc_runs}
     unrealised = [rr[0]["run"] for rr in split_by_run(rows_tlc)
@@ -406,7 +429,7 @@ def run(ctx):
         raise Undecided("C05 mempool harness (v0) died: %s" % dead["v0"])
 
     # ---- 5. trace validation (TLC judges the observed behaviour) ----------------------------------
-    rows_p = free + rows_k1 + rows_k2 + rows_tlc + free_rb + rows_rb + rows_tr + free_ih + rows_ih
+    rows_p = free + rows_k1 + rows_k2 + rows_tlc + free_rb + rows_rb + rows_tr + free_ih + rows_ih + rows_d
     vp = core.validate_traces(ctx, "TMCommitPipelineTrace", rows_p, label="pipeline", max_events=3000 if quick else 6000,
                                timeout=1500)
     vm = core.validate_traces(ctx, "TMMempoolLockTrace", rows_m, label="mempool", max_events=4000, timeout=1200)
@@ -420,6 +443,9 @@ def run(ctx):
     ih_ids = {r["id"] for r in ih_runs + ih_attacks + ih_tlc_runs} | {"free-ih"}
     specs_by_id.update({r["id"]: r for r in ih_runs + ih_attacks + ih_tlc_runs})
     noprune_ids |= ih_ids
+    d_ids = {r["id"] for r in d_runs}
+    specs_by_id.update({r["id"]: r for r in d_runs})
+    noprune_ids |= d_ids
     mspec_by_id = {r["id"]: r for r in mruns}
     verdict = core.Verdict(ctx)
     for v in vp["viol"]:
@@ -430,6 +456,7 @@ def run(ctx):
                           "retain": {} if row["run"] in noprune_ids else RETAIN,
                           "hash_mode": "txs" if row["run"] in txs_hash_ids else "commits",
                           "initial_height": IH if row["run"] in ih_ids else 1,
+                          "discard_abci": row["run"] in d_ids,
                           "heights": IH_BLOCKS if row["run"] in ih_ids else HEIGHTS, "prefix": v["prefix"][-60:],
                           "tlc": {"inv": v["inv"], "class": v["class"]}})
     for v in vm["viol"]:
@@ -528,6 +555,10 @@ def run(ctx):
         "tlc_schedules_not_realised_by_the_node": unrealised[:10],
         "tlc_schedules_not_realised_count": len(unrealised),
         "app_rollback_runs": len(rb_runs) + len(rb_tlc_runs),
+        "discard_abci_responses_runs": {"runs": len(d_runs), "crash_label_never_came_up": d_unrealised[:5]},
+        "saved_state_projection": "height, app hash, LastHeightValidatorsChanged, LastHeightConsensusParamsChanged, consensus "
+                                  "params in force, Version.Consensus.App, size of NextValidators - compared by TLC with the "
+                                  "spec's StateAfter(plan, height) after every logged step (StateIsChainState)",
         "initial_height_runs": {"initial_height": IH, "crash_points_of_the_crash_free_run": n0ih,
                                 "crash_points_replayed": last_ih, "tlc_schedules": len(ih_tlc_runs),
                                 "outcomes": ih_out},
@@ -596,7 +627,8 @@ def replay(ctx, path):
         return verdict.finish()
     spec = rep.get("run_spec") or {"id": "free", "crashes": []}
     rows = run_pipeline(ctx, binp, [spec], "replay", 1, retain=rep.get("retain"), hash_mode=rep.get("hash_mode", "commits"),
-                        initial_height=rep.get("initial_height", 1), heights=rep.get("heights", HEIGHTS))
+                        initial_height=rep.get("initial_height", 1), heights=rep.get("heights", HEIGHTS),
+                        discard_abci=bool(rep.get("discard_abci")))
     v = core.validate_traces(ctx, "TMCommitPipelineTrace", rows, label="replay")
     for x in v["viol"]:
         row = x["row"]
